@@ -312,9 +312,11 @@ def get_rtlir_dtype( obj ):
     raise RTLIRConversionError( obj, msg )
 
 def _get_nbits_from_value( value ):
+  # Integer arithmetic: ceil(log2(x)) in floating point is off by one for
+  # large values (e.g. 2**53+1, 2**63).
   if -1 <= value <= 1:
     return 1
   if value < 0:
-    return ceil(log2(abs(value)))
+    return (abs(value)-1).bit_length() # == ceil(log2(abs(value)))
   else:
-    return ceil(log2(value+1))
+    return value.bit_length()          # == ceil(log2(value+1))
